@@ -501,6 +501,21 @@ static void hist_case(Case& cs, const Profile& pf) {
       case 6: {  // add_block_parameters
         if (ref.sets.size() >= 8) break;
         M::BlockP b = gen::gen_bp(c, bo);
+        if (c.range(0, 2) == 0) {
+          // a set that differs from an existing one in a single member (or not at all): it is a set of its own all the same
+          b = ref.sets[c.range(0, ref.sets.size() - 1)];
+          switch (c.range(0, 7)) {
+            case 0: b.sp.hints.other ^= (uint64_t)c.range(1, 3); break;
+            case 1: b.sp.hints.rr ^= (uint64_t)c.range(1, 3); break;
+            case 2: b.sp.hints.qr ^= 1ull << c.range(0, 17); break;
+            case 3: b.sp.hints.sig ^= 1ull << c.range(0, 16); break;
+            case 4: b.sp.max_items = pf.small_blocks ? c.pick<uint64_t>({1, 2, 3, 5}) : c.pick<uint64_t>({7, 40, 10000}); break;
+            case 5: b.sp.opcodes.push_back(c.range(0, 255)); break;
+            case 6: if (bo.any_tps) b.sp.tps = c.pick<uint64_t>({1000ull, 1000000ull, 1000000000ull}); break;
+            default: break;
+          }
+          cs.st.cls("added_set_derived_from_an_existing_one");
+        }
         CDNS::BlockParameters lb = adapt::lib_bp(b);
         CDNS::index_t idx = ex->add_block_parameters(lb);
         trace << "add_block_parameters -> " << idx << "\n";
